@@ -652,6 +652,47 @@ def r17g(ctx, run):
                                                   if want is False else "an optional of a pointer is pointer-sized (nil = the null pointer); it would get a tag"))
 
 
+def r17h(ctx, run):
+    """StructLayout::new on concrete field lists, among them zero-sized members that still have an alignment (`[0]u64`: size 0, align 8): every member
+    sits at a multiple of its own alignment, in declaration order, and the struct is as aligned as its most aligned member - whatever the member's size."""
+    from symint import SymInterp
+    from absint import Obj, Panic, CannotEstablish, _Return
+    snew = ctx.syn.fn("StructLayout::new", LAYOUT_RS)
+    helpers = {f.qual.rsplit("::", 1)[-1]: f for f in ctx.syn.fns_in(LAYOUT_RS) if f.body is not None and not f.in_test}
+    samples = [
+        [(1, 1), (0, 8), (1, 1)], [(0, 8)], [(0, 4), (4, 4)], [(8, 8), (0, 2), (1, 1)], [(1, 1), (0, 1), (4, 4)], [(1, 1), (0, 8)], [(3, 1), (0, 2), (0, 4), (1, 1)],
+        [(1, 1), (8, 8), (1, 1)], [(4, 4), (2, 2), (1, 1), (8, 8)], [(9, 8), (1, 1)], [],
+    ]
+    n = 0
+    for fields in samples:
+        objs = [Obj("FieldTy", size=sz, align=al) for sz, al in fields]
+        it = SymInterp(resolver=lambda path: helpers.get(path.rsplit("::", 1)[-1]),
+                       methods={"size": lambda i, r, a: r.fields["size"], "align": lambda i, r, a: r.fields["align"], "stride": lambda i, r, a: -(-r.fields["size"] // r.fields["align"]) * r.fields["align"]},
+                       funcs={"Vec::with_capacity": lambda i, a: [], "Vec::new": lambda i, a: []})
+        desc = "struct of members (size, align) = %s" % (fields,)
+        try:
+            try:
+                sl = it.run_fn(snew, {snew.param_names()[0]: objs})
+            except _Return as r:
+                sl = r.v
+        except (Panic, CannotEstablish) as c:
+            run.finding("StructLayout::new", "concrete:%s" % (fields,), snew.file, snew.ln, "cannot establish the layout of a %s: %s" % (desc, getattr(c, "what", c)))
+            continue
+        n += 1
+        want, off, mx = [], 0, 1
+        for sz, al in fields:
+            off += (-off) % al
+            want.append(off)
+            off += sz
+            mx = max(mx, al)
+        got = (sl.fields.get("offsets"), sl.fields.get("size"), sl.fields.get("align")) if isinstance(sl, Obj) else sl
+        run.check(got == (want, off, mx), snew.site(), "%s: offsets %s size %d align %d" % (desc, want, off, mx), "StructLayout::new", "concrete:%s" % (fields,), snew.file, snew.ln,
+                  "a %s is laid out as offsets/size/align = %r; the representation rules give %r (every member at a multiple of its own alignment - also a zero-sized one - and the "
+                  "struct aligned like its most aligned member)" % (desc, got, (want, off, mx)))
+    if n < 9:
+        raise LookupError("concrete struct layouts evaluated: %d" % n)
+
+
 def rules(ctx):
     return [
         Rule("R17.a", "scalar and pointer-like kinds: size/align table for pointer widths 64 and 32; align a power of two <= 8", 70, r17a),
@@ -659,6 +700,7 @@ def rules(ctx):
         Rule("R17.c", "tagged unions keep a one-byte tag after the largest payload; optional pointer has no tag; is_non_zero only for pointers", 25, r17c),
         Rule("R17.g", "only optionals of pointers are pointer-sized: Ty::is_non_zero evaluated for every kind", 20, r17g),
         Rule("R17.d", "struct fields in declaration order, each at the previous end rounded up to its alignment; size/align", 8, r17d),
+        Rule("R17.h", "StructLayout::new on concrete member lists, zero-sized aligned members included: offsets, size, alignment", 9, r17h),
         Rule("R17.e", "padding_needed_for / stride round up to the alignment (congruence domain mod 8)", 2, r17e),
         Rule("R17.f", "layout accessors read the table they name; struct/enum layouts through the absolute type", 6, r17f),
     ]
